@@ -89,7 +89,7 @@ def shape_of(op, S0, world):
         else:
             parts.append('multi' if len(items) > 1 else 'single')
     a = op.get('arg')
-    if isinstance(a, dict):
+    if isinstance(a, dict) and not k.startswith('q_'):
         parts.append(a['k'] + (str(min(len(a.get('items', [])), 2)) if a['k'] in ('list', 'tuple', 'gen') else ''))
     if k == 'q_setattr':
         parts.append(op['attr'])
@@ -319,7 +319,16 @@ class Run:
             for pair, a_side, b_side in gm.sides(self.world, S0):
                 for mine, other, label in ((a_side, b_side, 'copy'), (b_side, a_side, 'source')):
                     if names and names <= mine:
+                        # tasks the user linked across the two sides legitimately see the mirror update
+                        cross = set()
+                        for nme in names:
+                            if nme in S0['tasks']:
+                                cross.update(S0['tasks'][nme]['preds'] + S0['tasks'][nme]['succs'])
+                            if nme in S1['tasks']:
+                                cross.update(S1['tasks'][nme]['preds'] + S1['tasks'][nme]['succs'])
                         for t in other:
+                            if t in cross:
+                                continue
                             if t in S0['tasks'] and t in S1['tasks'] and S0['tasks'][t] != S1['tasks'][t]:
                                 vs.append(core.Violation(
                                     'C10', 'not-independent', f'C10/not-independent/{tail}',
@@ -360,7 +369,7 @@ class Run:
             t, tgt = op['arg']['items'][0], op['on']
         if t is None or t not in self.released or t not in S0['tasks']:
             return False
-        if S0['tasks'][t]['parent'] is not None:
+        if S0['tasks'][t]['parent'] is not None or S0['tasks'][t]['wbs'] is not None:
             return False
         tw = tgt if tgt in S0['wbs'] else S0['tasks'].get(tgt, {}).get('wbs')
         return tw is not None
@@ -474,7 +483,10 @@ TIER_RUNS = {
 }
 
 # known-finding signature -> generator quarantine flags (shapes that are not generated in bulk)
-QUARANTINE_OF = {}
+QUARANTINE_OF = {
+    'C15/state-changed/q_setattr/parent': ['bulk-partial'],
+    'C15/state-changed/q_lshift/-': ['bulk-partial'],
+}
 
 ASSUMPTIONS = {
     'default': [
